@@ -134,3 +134,55 @@ def replay_db(v, pid, path):
         print("REPLAY-VIOLATION", iv["signature"], iv["detail"][:400])
     print("replayed history %s#%s: %d violation(s)" % (rep["mode"], rep["index"], len(st.get("impl_violations") or [])))
     return 1 if st.get("impl_violations") else 0
+
+
+def harness_only_phase(v, pid, mode, n, steps, key):
+    """run the db harness in one mode without the proof phase (used as an extra phase by other
+    properties' checks); violations are reported under pid, coverage goes under v.coverage[key]"""
+    import subprocess
+    ok, o = C.build_harness("db")
+    if not ok:
+        v.violation("%s/harness-build" % pid, "db harness does not build against the current /repo tree: " + o[-1500:],
+                    {"theorem_or_correspondence": "correspondence db (harness build)"}, False)
+        return
+    out = os.path.join(C.WORK, pid, key)
+    shutil.rmtree(out, ignore_errors=True)
+    os.makedirs(out, exist_ok=True)
+    shards = min(6, max(1, n))
+    procs = []
+    for k in range(shards):
+        so = os.path.join(out, "shard%d" % k)
+        os.makedirs(so, exist_ok=True)
+        procs.append((so, subprocess.Popen([C.harness_bin("db"), "-out", so, "-n", str(n), "-steps", str(steps), "-seed", str(v.seed),
+                                            "-mode", mode, "-shard", str(k), "-shards", str(shards)],
+                                           stdout=subprocess.PIPE, stderr=subprocess.STDOUT)))
+    acks = restores = 0
+    viol = []
+    for so, p in procs:
+        try:
+            o, _ = p.communicate(timeout=3000)
+        except subprocess.TimeoutExpired:
+            p.kill()
+            o = b"TIMEOUT"
+        sp = os.path.join(so, "stats.json")
+        if p.returncode != 0 or not os.path.exists(sp):
+            v.violation("%s/harness-run" % pid, o.decode("utf-8", "replace")[-1500:],
+                        {"theorem_or_correspondence": "correspondence db (%s)" % mode}, False)
+            return
+        st = json.load(open(sp))
+        acks += st["extra"].get("acks", 0)
+        restores += st["extra"].get("restores", 0)
+        viol += st.get("impl_violations") or []
+    v.coverage[key] = {"histories": n, "acknowledged_instants_checked": acks, "restores_compared": restores}
+    v.coverage["evaluations"] = v.coverage.get("evaluations", 0) + acks + restores
+    if restores == 0:
+        v.violation("%s/harness-run" % pid, "the %s phase compared no restores" % mode, {"theorem_or_correspondence": "correspondence db"}, False)
+    for iv in viol:
+        sig = iv["signature"]
+        if sig.startswith("harness/"):
+            v.violation("%s/%s" % (pid, sig.replace("/", "-")), iv["detail"], {"theorem_or_correspondence": "harness could not run the history"}, False)
+            continue
+        sig = pid + "/" + sig.split("/", 1)[1]
+        rep = dict(iv.get("replay") or {})
+        rep["how"] = "harness db -mode %s -seed %s -only %s" % (mode, rep.get("seed"), rep.get("index"))
+        v.violation(sig, iv["detail"], rep, True)
